@@ -21,7 +21,7 @@ vlib.standard_check({
     "harness": "c18",
     "translators": [translate_bitmanip.run],
     "gen_files": ["lean/GateryModel/Gen/BitManip.lean"],
-    "streams": {"quick": [[2000, 50], [5000, 0], [400, "sig"]], "thorough": [[20000, 50], [2000, 400], [20000, 12], [300000, 0], [6000, "sig"]]},
+    "streams": {"quick": [[6000, 50], [15000, 0], [1500, "sig"]], "thorough": [[20000, 50], [2000, 400], [20000, 12], [300000, 0], [6000, "sig"]]},
     "search": [[20000, 50], [5000, 200], [100000, 0], [3000, "sig"]],
     "signature": signature,
     "eval_key": "ops",
